@@ -167,6 +167,123 @@ std::basic_istream<Ch, Tr> &operator>>(std::basic_istream<Ch, Tr> &s, heavy &v)
 }
 // true when every heavy that was constructed has been destroyed exactly once (call at a quiescent point)
 inline bool heavy_ledger_balanced() { return heavy_stats().live == 0; }
+
+// vf::natural - an exact scalar for the natural numbers 0, 1, 2, ...: there is no negative value, so negation is NOT the
+// additive inverse (-n saturates to 0 for n != 0, as does a - b for b > a; both are counted as domain errors).  Code that
+// is written for "an unsigned scalar" and whose mathematically exact result is a natural number must not depend on
+// wrap-around: built-in unsigned types forgive  x + (-v)  for  x - v, this type does not.
+inline std::uint64_t &natural_domain_errors()
+{
+  static std::uint64_t n = 0;
+  return n;
+}
+class natural
+{
+public:
+  using rep = unsigned long long;
+  natural() = default;
+  template <typename A, typename = std::enable_if_t<std::is_arithmetic_v<A>>>
+  natural(A const v) : v_(v < A(0) ? (++natural_domain_errors(), rep{0}) : static_cast<rep>(v)) // NOLINT
+  {
+  }
+  [[nodiscard]] rep get() const { return v_; }
+  explicit operator long long() const { return static_cast<long long>(v_); }
+  explicit operator unsigned long long() const { return v_; }
+  explicit operator long() const { return static_cast<long>(v_); }
+  explicit operator int() const { return static_cast<int>(v_); }
+  explicit operator unsigned() const { return static_cast<unsigned>(v_); }
+  explicit operator unsigned long() const { return static_cast<unsigned long>(v_); }
+  explicit operator double() const { return static_cast<double>(v_); }
+  natural &operator+=(natural const &o)
+  {
+    v_ += o.v_;
+    return *this;
+  }
+  natural &operator-=(natural const &o)
+  {
+    if (o.v_ > v_)
+    {
+      ++natural_domain_errors();
+      v_ = 0;
+    }
+    else
+      v_ -= o.v_;
+    return *this;
+  }
+  natural &operator*=(natural const &o)
+  {
+    v_ *= o.v_;
+    return *this;
+  }
+  natural &operator/=(natural const &o)
+  {
+    v_ /= o.v_;
+    return *this;
+  }
+  natural &operator%=(natural const &o)
+  {
+    v_ %= o.v_;
+    return *this;
+  }
+  natural &operator++()
+  {
+    ++v_;
+    return *this;
+  }
+
+private:
+  rep v_ = 0;
+};
+inline natural operator+(natural a, natural const &b) { return a += b; }
+inline natural operator-(natural a, natural const &b) { return a -= b; }
+inline natural operator*(natural a, natural const &b) { return a *= b; }
+inline natural operator/(natural a, natural const &b) { return a /= b; }
+inline natural operator%(natural a, natural const &b) { return a %= b; }
+inline natural operator-(natural const &a)
+{
+  if (a.get() != 0)
+    ++natural_domain_errors();
+  return natural();
+}
+inline natural operator+(natural const &a) { return a; }
+inline bool operator==(natural const &a, natural const &b) { return a.get() == b.get(); }
+inline bool operator!=(natural const &a, natural const &b) { return a.get() != b.get(); }
+inline bool operator<(natural const &a, natural const &b) { return a.get() < b.get(); }
+inline bool operator<=(natural const &a, natural const &b) { return a.get() <= b.get(); }
+inline bool operator>(natural const &a, natural const &b) { return a.get() > b.get(); }
+inline bool operator>=(natural const &a, natural const &b) { return a.get() >= b.get(); }
+template <typename Ch, typename Tr>
+std::basic_ostream<Ch, Tr> &operator<<(std::basic_ostream<Ch, Tr> &s, natural const &v)
+{
+  return s << v.get();
+}
+}
+
+namespace std
+{
+template <>
+struct hash<vf::natural>
+{
+  std::size_t operator()(vf::natural const &v) const noexcept { return std::hash<unsigned long long>{}(v.get()); }
+};
+}
+
+namespace fcppt
+{
+template <>
+struct make_literal<vf::natural, void>
+{
+  using decorated_type = vf::natural;
+  template <typename Arg>
+  static decorated_type get(Arg const v)
+  {
+    return vf::natural(v);
+  }
+};
+}
+
+namespace vf
+{
 }
 
 namespace std
